@@ -174,3 +174,30 @@ func VerifErrClass(err error) string {
 	}
 	return "other:" + err.Error()
 }
+
+// VerifNewSession is NewSession with the unexported test switch for the control connection.
+func VerifNewSession(cfg ClusterConfig, disableControlConn bool) (*Session, error) {
+	cfg.disableControlConn = disableControlConn
+	if cfg.Logger == nil {
+		cfg.Logger = VerifNopLogger{}
+	}
+	return NewSession(cfg)
+}
+
+// VerifPoolSizes returns host address -> number of connections in its pool.
+func VerifPoolSizes(s *Session) map[string]int {
+	out := map[string]int{}
+	for _, p := range s.pool.hostConnPools {
+		out[p.host.ConnectAddress().String()] = len(p.conns)
+	}
+	return out
+}
+
+func VerifHostAddr(h *HostInfo) string {
+	if h == nil {
+		return "<nil>"
+	}
+	return h.ConnectAddress().String()
+}
+
+func VerifPreparedLen(s *Session) int { return s.stmtsLRU.lru.Len() }
